@@ -127,7 +127,7 @@ def deep_nesting_probe():
 
 def main(tier):
     t0 = time.time()
-    proof = common.proof_obligations("C17")
+    proof = common.proof_obligations("C17", modules=["EduceModel.Props.C17", "EduceModel.Props.Profile"])
     rng = random.Random(common.seed())
     n_valid, n_mut = (150, 6000) if tier == "quick" else (1500, 200000)
     tie = {"evaluations": 0, "distinct_nontrivial": 0, "failing": [], "broken": [], "broken_details": [], "known": [], "samples": [], "extra": {}}
@@ -142,6 +142,15 @@ def main(tier):
             tr = re.findall(r"educe\(\s*(?:::)?(\w+)", a)
             top = "#[educe(%s)]" % (tr[0] if tr and tr[0][0].isupper() and tr[0] in attr.ALL_TRAITS else "Debug")
             cases.append("#[derive(Educe)]\n%s\n%s" % (top, it % a))
+    # (1a) an explicit rank equal to the default rank (isize::MIN + position) of a later field without one: the repetition is
+    # noticed at a field that has no rank of its own (no span of a written rank to point at)
+    for t in ["Ord", "PartialOrd", "PartialOrd, Ord"]:
+        first = t.split(",")[0]
+        for k in (1, 2):
+            r = -9223372036854775808 + k
+            cases.append("#[derive(Educe)]\n#[educe(%s)]\nstruct S { #[educe(%s(rank = %d))] a: u8, b: u8, c: u8 }" % (t, first, r))
+            cases.append("#[derive(Educe)]\n#[educe(%s)]\nstruct S(#[educe(%s(rank = %d))] u8, u8, u8);" % (t, first, r))
+            cases.append("#[derive(Educe)]\n#[educe(%s)]\nenum E { A(#[educe(%s(rank = %d))] u8, u8, u8), B { #[educe(%s(rank = %d))] x: u8, y: u8, z: u8 } }" % (t, first, r, first, r))
     # (1b) unusual field / target types under the traits that inspect types
     for ty in ODD_TYPES:
         for t in ["Deref", "Into(%s)" % ty, "Into(u8)", "Default", "Debug", "Clone", "PartialEq", "Hash"]:
